@@ -83,3 +83,71 @@ Theorem sem_trace_erase : forall host cap m afs, m_funcs m = map erase_func afs 
   forall fuel fi args, snd (trun host cap m afs fuel fi args) = run host cap m fuel fi args.
 Proof. exact trun_erase. Qed.
 Print Assumptions sem_trace_erase.
+
+(** ** meter_prepaid and meter_exact, for ALL modules, entry points, arguments, hosts, fuel:
+    on the event trace [T] of running the metered module [inject cfg m]
+    - every prefix [p] of [T] satisfies  work p <= ticks p  (energy is charged BEFORE the work:
+      a trap, an out-of-energy stop or any other interruption can never leave work unpaid), and
+    - if the invocation returns, ticks T = work T exactly.
+    [work] sums the annotations of the executed instructions: the cost the schedule gives the SOURCE
+    instruction in its source context, [branch] for a taken [br_if], [invoke_after] per entered
+    function ([Meter.mi], [Meter.ameter_body]).  By [sem_trace_erase] and [inject_is_erasure] the
+    run is exactly [Sem.run] of [inject cfg m]. *)
+From CB Require Import Wasm.MeterSafe.
+
+Theorem meter_prepaid_exact : forall cfg m m' afs host cap fuel fi args T o,
+  inject cfg m = Some m' -> ameter_funcs cfg m = Some afs ->
+  trun host cap m' afs fuel fi args = (T, o) ->
+  (forall p q, T = p ++ q -> work p <= ticks p) /\
+  (forall r mem g, o = Done r mem g -> ticks T = work T).
+Proof. exact metered_run_prepaid_exact. Qed.
+Print Assumptions meter_prepaid_exact.
+
+Theorem inject_is_erasure : forall cfg m m' afs,
+  inject cfg m = Some m' -> ameter_funcs cfg m = Some afs -> m_funcs m' = map erase_func afs.
+Proof. exact inject_erase. Qed.
+Print Assumptions inject_is_erasure.
+
+(** the metered run observed through the reference semantics: same outcome as [Sem.run (inject m)] *)
+Theorem metered_run_is_sem_run : forall cfg m m' afs host cap fuel fi args,
+  inject cfg m = Some m' -> ameter_funcs cfg m = Some afs ->
+  snd (trun host cap m' afs fuel fi args) = run host cap m' fuel fi args.
+Proof. intros. apply trun_erase. eapply inject_erase; eassumption. Qed.
+Print Assumptions metered_run_is_sem_run.
+
+(** ** meter_bounds_steps (PARTIAL: see design/C02.md): the number of executed instructions of
+    non-zero cost in any prefix is bounded by the energy ticked so far (hence by the budget). *)
+Theorem meter_bounds_costed_steps_partial : forall cfg m m' afs host cap fuel fi args T o,
+  inject cfg m = Some m' -> ameter_funcs cfg m = Some afs ->
+  trun host cap m' afs fuel fi args = (T, o) ->
+  forall p q, T = p ++ q -> N.of_nat (length (works p)) <= ticks p.
+Proof.
+  intros cfg m m' afs host cap fuel fi args T o Hi Ha H p q Hpq.
+  destruct (metered_run_prepaid_exact _ _ _ _ _ _ _ _ _ _ _ Hi Ha H) as [Hp _].
+  specialize (Hp p q Hpq). pose proof (works_le_work p). eapply N.le_trans; eassumption.
+Qed.
+Print Assumptions meter_bounds_costed_steps_partial.
+
+(** non-vacuity: a concrete module with a loop, a br_if, a call and memory.grow is metered by both
+    schedules and its run returns with ticks = work > 0 *)
+Definition ex_module : module :=
+  {| m_types := [ {| ft_params := []; ft_result := Some T_i32 |}; {| ft_params := [T_i32]; ft_result := Some T_i32 |} ];
+     m_imports := [];
+     m_funcs := [ {| f_type := 1%nat; f_locals := [T_i32];
+                     f_body := [Basic (BLocalGet 0); Basic (BConst T_i32 1%Z); Basic (BBinop T_i32 Add)] |};
+                  {| f_type := 0%nat; f_locals := [T_i32];
+                     f_body := [Basic (BConst T_i32 3%Z); Basic (BLocalSet 0);
+                                Loop None [Basic (BLocalGet 0); Basic (BConst T_i32 1%Z); Basic (BBinop T_i32 Sub);
+                                           Basic (BLocalTee 0); Basic (BBrIf 0)];
+                                Basic (BConst T_i32 1%Z); Basic BMemoryGrow; Basic BDrop;
+                                Basic (BConst T_i32 5%Z); Basic (BCall 0)] |} ];
+     m_table := None; m_elems := []; m_mem := Some {| l_min := 1; l_max := Some 4 |}; m_data := []; m_globals := [] |}.
+
+Example metered_example :
+  forall v1 : bool,
+  match model_events v1 512 ex_module 200 1 [] with
+  | Some (T, Done (Some (VI32 6)) _ _) => ticks T = work T /\ 0 < ticks T /\ bal 0 T = Some 0
+  | _ => False
+  end.
+Proof. intros [|]; vm_compute; repeat split; reflexivity. Qed.
+Print Assumptions metered_example.
